@@ -360,6 +360,7 @@ def r3_5(ctx, rc):
     c02.r2_4(ctx, rc)
     c02.r2_3(ctx, rc)
     c02.r2_6(ctx, rc)
+    c02.r2_6b(ctx, rc)
     c02.r2_7(ctx, rc)
 
 
